@@ -303,12 +303,16 @@ func main() {
 	}
 	total := r.RunSharded(vr.Workers(), func(sh vr.ShardInfo, p *vr.Partial) {
 		runtime.GOMAXPROCS(1) // hand-offs between controlled threads are cheapest on one P
+		p.Add("workers", 1)
 		for _, sc := range scs {
 			b := bound
 			if r.Quick() && sc.quickBound > 0 {
 				b = sc.quickBound
 			}
 			schedmc.Explore(setupFor(sc), schedmc.Options{Name: sc.name, Bound: b, Exclusive: true}, sh, p, r.Expired)
+			if !r.Expired() {
+				p.Add("done:"+sc.name, 1)
+			}
 		}
 	})
 	perScenario := map[string]int64{}
@@ -318,9 +322,12 @@ func main() {
 		}
 	}
 	r.RequireOutcomes(total.Card("outcomes"), 2)
-	var names []string
+	var names, completed []string
 	for _, sc := range scs {
 		names = append(names, sc.name)
+		if total.Counters["done:"+sc.name] == total.Counters["workers"] && total.Counters["workers"] > 0 {
+			completed = append(completed, sc.name)
+		}
 	}
 	r.Finish(vr.Coverage{
 		Level:       "model_checking",
@@ -333,7 +340,7 @@ func main() {
 		Validated:   total.Counters["validated_replays"] + total.Counters["executions"],
 		Exhaustive:  !total.TimedOut,
 		Outcomes:    total.Card("outcomes"),
-		Bounds:      map[string]any{"preemption_bound": bound, "quick_bound_1_for_3_thread_scripts": r.Quick(), "scenarios": names},
+		Bounds:      map[string]any{"preemption_bound": bound, "quick_bound_1_for_3_thread_scripts": r.Quick(), "scenarios": names, "scenarios_enumerated_completely": completed},
 		Extra:       map[string]any{"schedules": total.Counters["executions"], "scheduling_steps": total.Counters["steps"], "max_decisions_per_schedule": total.Counters["max_decisions"], "schedules_per_scenario": perScenario},
 		Assumptions: []string{"sequentially consistent atomics (Go memory model for sync/atomic)", "states = scheduler steps at which the monitor was evaluated (the stateless search does not deduplicate states)",
 			"each schedule is executed on fresh objects from its decision sequence; failing schedules are re-executed and must fail identically"},
